@@ -1255,6 +1255,7 @@ class DiskRefsContainer(RefsContainer):
         self._check_refname(other)
         filename = self.refpath(name)
         self._check_packed_conflict(name, filename)
+        ensure_dir_exists(os.path.dirname(filename))
         f = GitFile(filename, "wb")
         try:
             f.write(SYMREF + other + b"\n")
